@@ -44,10 +44,11 @@ def add_stages(rng, case):
     '''turn the plain graphs into graphs with 1-2 nested "stage" nodes (DepGraph objects used as
     nodes, possibly empty, shared by the hard and the soft graph)'''
     n = case['n']
-    nst = rng.choice([1, 1, 2])
+    nst = rng.choice([1, 1, 2, 2, 3])
     stages = [[] for _ in range(nst)]
+    p_empty = rng.choice([0.4, 0.4, 0.8])
     for k in range(nst):
-        if rng.random() < 0.4:
+        if rng.random() < p_empty:
             continue                      # an empty stage
         for t in range(n):
             if rng.random() < 0.3 and not any(t in ms for ms in stages):
@@ -173,7 +174,10 @@ def gen_case(rng, focus, big=False):
             run['tz'] = rng.choice(['UTC+11', 'UTC-12', 'America/New_York', 'Asia/Tokyo', 'UTC'])
     if rng.random() < 0.12:
         case['falsy'] = [t for t in range(n) if rng.random() < 0.5]     # task objects that are falsy
-    if nruns > 1 and rng.random() < 0.4:
+    if nruns > 1 and focus == 'C04' and rng.random() < 0.35:
+        # the documented way for real: write_env after a run, read_env before the next one
+        case['carry_files'] = True
+    elif nruns > 1 and rng.random() < 0.4:
         case['reuse'] = True      # the same Scheduler object schedules every run
     elif nruns > 1 and not case.get('stages') and focus != 'C04' and rng.random() < 0.4:
         # (not for C04: re-running is about the same job, edges do not change between runs)
@@ -255,6 +259,21 @@ CORPUS = [
      'runs': [{'outcomes': ['poison:0', 'done', 'done'], 'strategy': 'master_last', 'seed': 48}]},
     {'n': 4, 'hard': [[], [0], [], []], 'soft': [[], [], [], [2]], 'workers': 3, 'no_model': True, 'may_raise': True, 'only': ['C03'],
      'runs': [{'outcomes': ['poison:1', 'done', 'done', 'done'], 'strategy': 'uniform', 'seed': 49}]},
+    # C01: two adjacent empty stages (equal as graphs, distinct as nodes) between a task and its dependency
+    {'n': 2, 'hard': [[], [2], [3], [0]], 'soft': [[], [], [], []], 'stages': [[], []], 'workers': 2,
+     'runs': [{'outcomes': ['done', 'done'], 'strategy': 'master_first', 'seed': 64}]},
+    {'n': 3, 'hard': [[], [], [], [], []], 'soft': [[], [3], [4], [4], [0]], 'stages': [[], []], 'workers': 3,
+     'runs': [{'outcomes': ['done', 'done', 'done'], 'strategy': 'pct', 'seed': 65}]},
+    # C02/C03: updates whose merge raises something else than TypeError (a mapping over a list / an array)
+    {'n': 3, 'hard': [[], [0], []], 'soft': [[], [], [0]], 'workers': 2,
+     'runs': [{'outcomes': ['clash:1', 'done', 'done'], 'strategy': 'uniform', 'seed': 66}]},
+    {'n': 2, 'hard': [[], []], 'soft': [[], [0]], 'workers': 1,
+     'runs': [{'outcomes': ['clash:2', 'clash:3'], 'strategy': 'uniform', 'seed': 67}]},
+    # C04: the environment goes through the files of write_env / read_env between runs; a lost file in the middle
+    {'n': 4, 'hard': [[], [0], [], [2]], 'soft': [[], [], [], []], 'workers': 2, 'carry_files': True,
+     'runs': [{'outcomes': ['done', 'done', 'done', 'done'], 'strategy': 'uniform', 'seed': 68},
+              {'outcomes': ['done', 'done', 'done', 'done'], 'lost': [1], 'strategy': 'uniform', 'seed': 69},
+              {'outcomes': ['done', 'raise', 'done', 'done'], 'lost': [0], 'strategy': 'uniform', 'seed': 70}]},
     # C03: cyclic graph; stale statuses in the initial environment
     {'n': 2, 'hard': [[1], [0]], 'soft': [[], []], 'workers': 2,
      'runs': [{'outcomes': ['done', 'done'], 'strategy': 'uniform', 'seed': 6}]},
@@ -453,6 +472,8 @@ def oracle_c03(ctx, case, run):
 
 
 def oracle_c04(ctx, case, run):
+    for what in run.get('carry_errors') or []:
+        ctx.oracle_failure(f'{what} :: {brief(case)}', replay_case(case, run), key='carry-lost')
     if run['result'] != 'returned':
         return
     rc = replay_case(case, run)
